@@ -35,6 +35,10 @@ func (p *CodeBuilder) emitMapStringAnyAssert(argVal js.Expr) js.Expr {
 	panic("todo emitMapStringAnyAssert")
 }
 
+func isAutoAssertStmt(stmt js.Stmt) bool {
+	return false
+}
+
 // TypeAssert func
 func (p *CodeBuilder) TypeAssert(typ types.Type, lhs int, src ...ast.Node) *CodeBuilder {
 	panic("todo TypeAssert")
@@ -271,6 +275,9 @@ func emitReturnStmt(cb *CodeBuilder, pos token.Pos, rets ...js.Expr) {
 }
 
 func emitIfStmt(cb *CodeBuilder, p *ifStmt, el js.Stmt) {
+	for _, s := range p.pre {
+		cb.emitStmt(s)
+	}
 	if p.init != nil {
 		cb.emitStmt(p.init)
 	}
